@@ -169,6 +169,10 @@ fn c11_check(_ctx: &Ctx, c: &C11Case) -> Report {
   }
   rep.sample = Some(render_cc(&c.cc, &r));
   if let Some(k) = hung(&r) {
+    if let Some(p) = crate_panic(&r.outcome) {
+      rep.fail = Some(format!("{} | {}", p, render_cc(&c.cc, &r)));
+      return rep;
+    }
     rep.classes.push(format!("aborted:{}", k));
     return rep;
   }
@@ -462,6 +466,10 @@ fn c12_check(_ctx: &Ctx, c: &C12Case) -> Report {
   rep.classes.push(format!("kind:{}", c.kind.split('(').next().unwrap()));
   rep.sample = Some(render_cc(&c.cc, &r));
   if let Some(k) = hung(&r) {
+    if let Some(p) = crate_panic(&r.outcome) {
+      rep.fail = Some(format!("{} | {}", p, render_cc(&c.cc, &r)));
+      return rep;
+    }
     rep.classes.push(format!("aborted:{}", k));
     return rep;
   }
@@ -746,6 +754,10 @@ fn c09_check_impl(c: &C09Case, c05_only: bool) -> Report {
   rep.classes.push(if c.hot { "source:emitter-thread".into() } else { "source:synchronous".into() });
   rep.sample = Some(render_cc(&c.cc, &r));
   if let Some(k) = hung(&r) {
+    if let (Some(p), false) = (crate_panic(&r.outcome), c05_only) {
+      rep.fail = Some(format!("{} | {}", p, render_cc(&c.cc, &r)));
+      return rep;
+    }
     rep.classes.push(format!("aborted:{}", k));
     return rep;
   }
